@@ -1,10 +1,11 @@
 mod fw;
+mod c10;
 mod c11;
 
 use fw::*;
 
 fn defs() -> Vec<CheckDef> {
-    vec![c11::DEF]
+    vec![c10::DEF, c11::DEF]
 }
 
 fn arg_after(args: &[String], flag: &str) -> Option<String> {
